@@ -148,6 +148,8 @@ inductive Exc where
   | indexError
   | attributeError
   | typeError
+  | unboundLocalError   -- a `for` target read after a loop that never ran
+  | fuel                -- NOT a Python exception: a `while` loop did not end within the fuel the translator gave it
 deriving DecidableEq, Repr, Inhabited
 
 abbrev Py (α : Type) := Except Exc α
@@ -187,5 +189,82 @@ def TD.le (a b : TD) : Bool :=
 /-- `timedelta(weeks=w, days=d, hours=h, minutes=m, seconds=s)` on ints (absent keywords are 0).
     CPython sums exactly and normalises; the range limit (OverflowError) is not modelled. -/
 def TD.ofUnits (w d h m s : Int) : TD := TD.norm (w * 7 + d) (h * 3600 + m * 60 + s)
+
+/-! ## wave 3: loops, characters, int-indexed slicing, `range`
+
+  A `for ch in s` / `for i, ch in enumerate(s)` loop becomes a structurally recursive definition over
+  the characters with the loop's state variables as arguments; a `while i < len(s)` loop becomes a
+  recursion on FUEL (`len(s) + 1`): running out of fuel is the distinguished error `Exc.fuel`, never
+  a value, and the equality theorems show that it does not happen.  A loop that contains `return`
+  answers `Loop σ ρ`.  Iterating a str yields `Char`s (a Python str of length 1).
+  A list that is only appended to and only consumed by `''.join(..)` is its concatenation (`Str`). -/
+
+/-- outcome of a loop that contains `return`: fell out of the loop with this state / returned -/
+inductive Loop (σ ρ : Type) where
+  | fell (s : σ)
+  | ret (v : ρ)
+
+/-- reading a `for` target after the loop: unbound if the loop never ran -/
+def getBound {α : Type} : Option α → Py α
+  | some v => .ok v
+  | none => .error .unboundLocalError
+
+/-- an `int` or `None` (`x = None` ... `x = i`): `None` and `0` are false -/
+instance : Truthy (Option Int) := ⟨fun o => match o with | none => false | some z => z != 0⟩
+
+/-- `len(ch.encode('utf-8'))` for one character -/
+def utf8Len (c : Char) : Int := (c.utf8Size : Int)
+
+/-- `s.encode('ascii')` does not raise -/
+def isAsciiStr (s : Str) : Bool := s.all (fun c => c.toNat < 128)
+
+/-- slice bound as CPython clamps it: negative counts from the end, then into `[0, len]` -/
+def clampIdx (n : Nat) (i : Int) : Nat :=
+  if i < 0 then (i + n).toNat else min i.toNat n
+
+/-- `s[a:b]`, `s[a:]`, `s[:b]` for int expressions (never raises) -/
+def pySliceI (s : Str) (a b : Int) : Str :=
+  (s.drop (clampIdx s.length a)).take (clampIdx s.length b - clampIdx s.length a)
+def pySliceFromI (s : Str) (a : Int) : Str := s.drop (clampIdx s.length a)
+def pySliceToI (s : Str) (b : Int) : Str := s.take (clampIdx s.length b)
+
+/-- `s[i]` : IndexError outside `[-len, len)` -/
+def strIndex (s : Str) (i : Int) : Py Char :=
+  if i < -(s.length : Int) ∨ i ≥ (s.length : Int) then .error .indexError
+  else
+    match s[clampIdx s.length i]? with
+    | some c => .ok c
+    | none => .error .indexError
+
+def rangeUp (stop step : Int) : Nat → Int → List Int
+  | 0, _ => []
+  | fuel + 1, i => if i < stop then i :: rangeUp stop step fuel (i + step) else []
+
+def rangeDown (stop step : Int) : Nat → Int → List Int
+  | 0, _ => []
+  | fuel + 1, i => if i > stop then i :: rangeDown stop step fuel (i + step) else []
+
+/-- `range(start, stop, step)` as a list; `step == 0` raises ValueError.  At most `|stop - start|`
+    elements exist, which is the fuel. -/
+def pyRange (start stop step : Int) : Py (List Int) :=
+  if step = 0 then .error .valueError
+  else if step > 0 then .ok (rangeUp stop step (stop - start).toNat start)
+  else .ok (rangeDown stop step (start - stop).toNat start)
+
+/-! ## `int or None` in slices and arithmetic (the split positions of `Contentline.parts`) -/
+
+/-- a slice bound that may be `None` (`None` = the default of that side) -/
+def optClamp (n dflt : Nat) : Option Int → Nat
+  | none => dflt
+  | some i => clampIdx n i
+
+/-- `s[a:b]` where `a`, `b` are ints or `None` -/
+def pySliceO (s : Str) (a b : Option Int) : Str :=
+  (s.drop (optClamp s.length 0 a)).take (optClamp s.length s.length b - optClamp s.length 0 a)
+
+/-- an `int or None` used as an operand of `+` / `-`: `None` raises TypeError -/
+def intOfOpt : Option Int → Py Int
+  | some z => .ok z
+  | none => .error .typeError
 
 end ICal.PyRT
